@@ -49,10 +49,31 @@ def corr(ctx, backend, op, margs, iargs=None, check=None, tags=()):
     return None
 
 
+def _drain_mutations():
+    """events queued by the adapters' argument watch (an object built for an op call no longer holds the values it was built from)"""
+    import sys
+    out = []
+    for be, modname in (('np', 'vlib.impl_np'), ('torch', 'vlib.impl_torch')):
+        m = sys.modules.get(modname)
+        if m is not None and getattr(m, 'MUT_EVENTS', None):
+            for e in m.MUT_EVENTS:
+                e = dict(e)
+                e['backend'] = be
+                out.append(e)
+            del m.MUT_EVENTS[:]
+    return out
+
+
 def do(ctx, name, args, nontrivial=None, sample=False, tags=None):
     """run CHECKS[name] of the current property module on args; record the outcome"""
     fn = ctx.checks[name]
+    _drain_mutations()
     r = fn(ctx, args)
+    ev = _drain_mutations()
+    if ev and r is None:
+        e = ev[0]
+        r = {'kind': 'oracle', 'where': '%s:%s modified an argument it was only given to read (%s)' % (e['backend'], e['op'], e['kind']),
+             'observed': e['after'], 'expected': e['before'], 'tags': ['argument_modified', e['backend'], e['op']]}
     ctx.res.case(nontrivial_key=nontrivial, sample={'check': name, 'args': args} if sample else None)
     ctx.res.count('check:' + name)
     if r is not None:
